@@ -13,7 +13,7 @@ from .common import _Return, _Break, _Continue
 from .builtins import BuiltinsMixin
 from .stmts import StmtMixin
 from .dicts import DictMixin
-from .values import split_top
+from .values import split_top, is_concrete
 
 class LoopSpec:
     def __init__(self, invariants=(), modifies=None, decreases=None,
@@ -31,7 +31,7 @@ class Contract:
                  raises=None, on_raise=(), modifies=(), loops=None,
                  locals=None, returns=None, assumed=False, inline=(),
                  pure=False, name=None, fields=None, ghost=None,
-                 allocates=False):
+                 allocates=False, call_ensures=None, call_raises=None):
         self.func = func
         self.params = params or {}
         self.requires = _lab(requires, "pre")
@@ -48,6 +48,39 @@ class Contract:
         self.fields = fields or {}
         self.ghost = ghost or {}
         self.allocates = allocates
+        # weaker view used at call sites (subset of ensures labels /
+        # replacement raise conditions); None = the full contract
+        self.call_ensures = call_ensures
+        self.call_raises = call_raises
+
+
+def literal_value(node):
+    """V for a literal expression or re.compile(<str literal>[, flags=re.I])"""
+    try:
+        return VPy(ast.literal_eval(node)) if not isinstance(
+            ast.literal_eval(node), (str, int, bool)) else \
+            {str: VStr, bool: VBool, int: VInt}[type(ast.literal_eval(node))](
+                ast.literal_eval(node))
+    except (ValueError, SyntaxError, TypeError):
+        pass
+    if isinstance(node, ast.Call) and isinstance(node.func, ast.Attribute) \
+            and node.func.attr == "compile" and \
+            isinstance(node.func.value, ast.Name) and \
+            node.func.value.id == "re" and node.args and \
+            isinstance(node.args[0], ast.Constant) and \
+            isinstance(node.args[0].value, str):
+        flags = 0
+        import re
+        for kw in node.keywords:
+            if kw.arg == "flags":
+                names = [n.attr for n in ast.walk(kw.value)
+                         if isinstance(n, ast.Attribute)]
+                for n in names:
+                    flags |= {"I": re.I, "IGNORECASE": re.I}.get(n, 0)
+        if len(node.args) > 1:
+            return None
+        return VPy(("regex", node.args[0].value, flags))
+    return None
 
 
 def _lab(items, base):
@@ -87,6 +120,7 @@ class Universe:
         self.callback_owner = {}  # callback field -> field naming its owner
         self.ghost_preds = set()  # predicates that mention ghost parameters
         self.local_types = {}   # 'Class.method' -> {local name: type tag}
+        self._iconsts = {}
 
     def field_tag(self, name):
         """z3 sort tag of a declared field (type tags: int/bool/str/Class/
@@ -95,6 +129,40 @@ class Universe:
         if d is None:
             return None
         return base_tag(d)
+
+    def instance_const(self, cname, attr, interp):
+        """Attributes assigned a literal (or re.compile of literals) exactly
+        once, in __init__, and nowhere else in the class: object constants."""
+        key = (cname, attr)
+        if key in self._iconsts:
+            return self._iconsts[key]
+        val = None
+        for c in self.repo.mro(cname):
+            info = self.repo.cls(c)
+            if info is None or "__init__" not in info.methods:
+                continue
+            stores = []
+            for node in ast.walk(info.node):
+                if isinstance(node, (ast.Assign, ast.AugAssign, ast.AnnAssign)):
+                    tgts = node.targets if isinstance(node, ast.Assign) \
+                        else [node.target]
+                    for t in tgts:
+                        if isinstance(t, ast.Attribute) and t.attr == attr \
+                                and isinstance(t.value, ast.Name) and \
+                                t.value.id == "self":
+                            stores.append(node)
+            if len(stores) != 1 or not isinstance(stores[0], ast.Assign):
+                continue
+            init_nodes = list(ast.walk(info.methods["__init__"]))
+            if stores[0] not in init_nodes:
+                continue
+            val = literal_value(stores[0].value)
+            if val is not None:
+                self.repo.record(f"{info.relpath}:{c}.__init__", info.relpath,
+                                 info.methods["__init__"])
+                break
+        self._iconsts[key] = val
+        return val
 
     def note_assumption(self, text):
         if text not in self.assumptions:
@@ -394,6 +462,11 @@ class Interp(BuiltinsMixin, StmtMixin, DictMixin):
                 return NONE
         if name in self.uni.consts:
             return self.uni.consts[name]
+        rel = getattr(fr, "relpath", None)
+        if rel:
+            mfn = self.uni.repo.module_function(rel, name)
+            if mfn is not None:
+                return VFunc("function", fn=mfn, relpath=rel, name=name)
         if name in BUILTIN_NAMES:
             return VFunc("builtin", name=name)
         if name in EXC_NAMES or self.is_exception_class(name):
@@ -663,6 +736,9 @@ class Interp(BuiltinsMixin, StmtMixin, DictMixin):
                 if attr in uni.fields:
                     return self.from_field(attr, st.read(
                         attr, obj.e, uni.field_tag(attr)))
+                ic = uni.instance_const(cls, attr, self)
+                if ic is not None:
+                    return ic
                 if kind == "const":
                     return self.class_const(info, attr, st, fr)
             if attr in uni.callbacks:
@@ -729,6 +805,16 @@ class Interp(BuiltinsMixin, StmtMixin, DictMixin):
                 if z3.is_int_value(c):
                     return obj.items[c.as_long()]
             raise Unsupported("symbolic tuple index")
+        if isinstance(obj, VPy) and isinstance(obj.obj, dict) and \
+                isinstance(idx, (VStr, VInt)) and \
+                not is_concrete(z3.simplify(idx.e)):
+            # constant table indexed by a symbolic key: case split
+            for k, v in obj.obj.items():
+                if self.dec.branch(st, self.same(idx, self.lift(k))):
+                    return self.lift(v)
+            if fr.spec:
+                raise Unsupported("spec: symbolic key not in table")
+            raise PyRaise(VExc("KeyError"))
         if isinstance(obj, VPy):
             key = self.concrete(idx)
             try:
@@ -1055,6 +1141,7 @@ class Interp(BuiltinsMixin, StmtMixin, DictMixin):
                     env=env, spec=fr.spec)
         sub.self_val = selfv
         sub.inline_key = key
+        sub.relpath = rel or getattr(fr, "relpath", None)
         sub.fn_node = fn
         sub.old = fr.old
         self.depth += 1
@@ -1081,6 +1168,9 @@ class Interp(BuiltinsMixin, StmtMixin, DictMixin):
             v = env.get(name)
             if isinstance(v, VRef) and v.cls is None:
                 env[name] = self.mkref(v.e, tag)
+            if isinstance(v, VPy) and isinstance(v.obj, (list, tuple)) and \
+                    tag.startswith("list[") and v.obj:
+                env[name] = self.list_from([self.lift(x) for x in v.obj], st)
         missing = set()
         for g in c.ghost:
             if g in fr.env:
@@ -1119,7 +1209,8 @@ class Interp(BuiltinsMixin, StmtMixin, DictMixin):
             st.assume(z3.ForAll([x], z3.Implies(z3.Select(a0, x),
                                                 z3.Select(a1, x))))
         # 3. outcome: exceptional exits first
-        for exc, cond in c.raises.items():
+        for exc, cond in (c.call_raises if c.call_raises is not None
+                          else c.raises).items():
             mode, text = cond if isinstance(cond, tuple) else ("may", cond)
             if text is None:
                 flag = fresh(f"raises_{exc}", BOOL)
@@ -1143,6 +1234,8 @@ class Interp(BuiltinsMixin, StmtMixin, DictMixin):
             sub.result = NONE
         for label, text, _ in c.ensures:
             if skip(text):
+                continue
+            if c.call_ensures is not None and label not in c.call_ensures:
                 continue
             st.assume(self.truth(self.ev(parse_expr(text), st, sub), st))
         return sub.result
